@@ -5,13 +5,18 @@ Two halves.  (1) For ALL infinite answer sequences of the simulated contact: a c
 accepted by `certOk` implies equal traces (`validCert_sound`, `flows_equiv_of_cert`) — the
 checker is run on every real compiler output against the reference interpretation
 `RefFlow.refFlow` of the same parsed rows.  (2) For all sheets: see `C02_full` below — the
-universal claim over sheets needs the compiler model (M4) and is discharged per sheet by (1).
+universal claim over sheets needs the compiler model (M4) and is discharged per sheet by (1);
+for ALL sheets of the fragment `CoreSheet.inFragment` it is PROVED with the Lean compiler model in
+place of the real compiler: `compile_refines_reference` / `C02_fragment` (lock-step simulation of
+the compiler machine and the reference's pass 1 + traces depend only on the index-resolved
+abstraction of a flow); `C02_fragment_full` names what is left.
 -/
 import Rpft.Lemmas.Bisim
 import Rpft.FlowSys
 import Rpft.RefFlow
 import Rpft.Lemmas.RefFlowClosed
 import Rpft.Gen.Tables
+import Rpft.Lemmas.CoreSim2
 set_option linter.unusedSimpArgs false
 set_option linter.unusedVariables false
 namespace Rpft.Props.C02
@@ -136,6 +141,110 @@ per sheet this is decided by `flows_equiv_of_cert` on the real output. -/
 def C02_full (compile : List RefFlow.RRow → Option Flow.Flow) : Prop :=
   ∀ rows f r, compile rows = some f → RefFlow.refFlow rows = .ok r →
     ∀ env n, trace ⟨false, true⟩ r env n = trace ⟨false, true⟩ f env n
+
+/-! ### the universal refinement theorem on a fragment of core sheets -/
+
+/-- **C02 for ALL sheets of the fragment** (`C02_full` with the Lean compiler model — tied to the
+real parser by exact comparison, C01 — in place of the abstract `compile`, restricted to
+`CoreSheet.inFragment`): whatever the rows, as long as they are in the fragment, if the compiler
+model compiles the sheet and the reference interpretation exists, then for EVERY stream of
+environment answers and every length the contact observes the same actions in the same order and
+faces the same decisions in the compiled flow as in the meaning of the rows.  Both readings are
+taken from ONE list of parsed rows (`CoreSheet.CRow`; `toEvent` / `toRRow` are cross-checked
+against the inputs the harness builds on every explored sheet).  Proof: lock-step simulation of the
+compiler machine and pass 1 of the reference (after every prefix of the sheet, arena node `j` is
+the compiled form of row `j` with the out-edges recorded for `j`), then equality of the
+index-resolved abstractions of the two flows (`Flow.trace_eq_of_abs`: identifiers do not matter).
+Holds at every observation level. -/
+theorem compile_refines_reference (lvl : ObsLevel) (noArgs testTypes : List Str)
+    (rows : List CoreSheet.CRow) (out : Compile.Out) (r : Flow.Flow)
+    (hF : CoreSheet.inFragment rows = true)
+    (hc : Compile.compile noArgs testTypes (rows.map CoreSheet.toEvent) = .ok out)
+    (hr : RefFlow.refFlow (rows.map CoreSheet.toRRow) = .ok r) :
+    ∀ env n, trace lvl r env n = trace lvl (Compile.renderOut out) env n :=
+  fun env n => trace_eq_of_abs lvl _ _ (CoreSheet.fragment_abs lvl noArgs testTypes rows out r hF hc hr) env n
+
+/-- the statement at the observation level of C02 -/
+theorem C02_fragment (noArgs testTypes : List Str) (rows : List CoreSheet.CRow) (out : Compile.Out)
+    (r : Flow.Flow) (hF : CoreSheet.inFragment rows = true)
+    (hc : Compile.compile noArgs testTypes (rows.map CoreSheet.toEvent) = .ok out)
+    (hr : RefFlow.refFlow (rows.map CoreSheet.toRRow) = .ok r) :
+    ∀ env n, trace ⟨false, true⟩ r env n = trace ⟨false, true⟩ (Compile.renderOut out) env n :=
+  compile_refines_reference ⟨false, true⟩ noArgs testTypes rows out r hF hc hr
+
+/-- What is NOT proved universally: the same statement for every sheet the parser accepts, i.e.
+without `inFragment` but under the documented single-meaning conditions (DESIGN §5 C02 WF,
+NoopStable) — conditional edges leaving action rows (a router node is created behind the action:
+two compiled nodes for one reference node), sub-flow / webhook / airtime rows, `go_to`,
+`hard_exit` / `loose_exit`, `no_op`, node merging, blocks.  Decided per explored sheet by
+`flows_equiv_of_cert` on the real output. -/
+def C02_fragment_full (wf : List CoreSheet.CRow → Prop) : Prop :=
+  ∀ (noArgs testTypes : List Str) (rows : List CoreSheet.CRow) (out : Compile.Out) (r : Flow.Flow),
+    wf rows → Compile.compile noArgs testTypes (rows.map CoreSheet.toEvent) = .ok out →
+    RefFlow.refFlow (rows.map CoreSheet.toRRow) = .ok r →
+    ∀ env n, trace ⟨false, true⟩ r env n = trace ⟨false, true⟩ (Compile.renderOut out) env n
+
+/-! #### non-vacuity and negative witnesses -/
+
+def blankC : Compile.Cond := ⟨[], [], [], []⟩
+
+/-- an action row: its `from` cells, the content of its action, (a given node identifier), (a
+different content in the documentation's table) -/
+def arow (id : String) (froms : List String) (act : String) (uuid : String := "")
+    (ract : Option String := none) : CoreSheet.CRow :=
+  { row := { rowId := id.toList, type := "send_message".toList,
+             edges := froms.map (fun f => ⟨f.toList, blankC⟩),
+             action := some act.toList, actionOk := true, ownAction := none, nodeUuid := uuid.toList,
+             nodeName := [], saveName := [], noResponse := [], expression := [], flowName := [], dests := [],
+             resultKey := none, nodeOk := true },
+    refAct := some ((ract.getD act).toList) }
+
+/-- a tree (`a` → `b`, `a` → `c`: the last edge leaving `a` wins), a join (`d` from `b` and `c`) and
+a blank `from` (`e` follows `d`) -/
+def exRows : List CoreSheet.CRow :=
+  [arow "a" ["start"] "A", arow "b" ["a"] "B", arow "c" ["a"] "C", arow "d" ["b", "c"] "D", arow "e" [""] "E"]
+
+/-- non-vacuity: the sheet is in the fragment, the compiler model compiles it (five nodes), the
+reference interpretation exists — and, as the theorem says, the traces agree (here: A, C, D, E) -/
+example : CoreSheet.inFragment exRows = true ∧
+    (∃ out, Compile.compile [] [] (exRows.map CoreSheet.toEvent) = .ok out ∧ out.nodes.length = 5) ∧
+    (∃ r, RefFlow.refFlow (exRows.map CoreSheet.toRRow) = .ok r ∧
+      trace ⟨false, true⟩ r (fun _ => 0) 5 =
+        [.act "A".toList, .act "C".toList, .act "D".toList, .act "E".toList]) := by
+  refine ⟨by decide +kernel, ?_, ?_⟩
+  · have h : (match Compile.compile [] [] (exRows.map CoreSheet.toEvent) with
+        | .ok out => decide (out.nodes.length = 5) | .error _ => false) = true := by decide +kernel
+    split at h
+    · rename_i out ho; exact ⟨out, ho, by simpa using h⟩
+    · cases h
+  · have h : (match RefFlow.refFlow (exRows.map CoreSheet.toRRow) with
+        | .ok r => decide (trace ⟨false, true⟩ r (fun _ => 0) 5 =
+            [.act "A".toList, .act "C".toList, .act "D".toList, .act "E".toList])
+        | .error _ => false) = true := by decide +kernel
+    split at h
+    · rename_i r hr; exact ⟨r, hr, by simpa using h⟩
+    · cases h
+
+/-- the two traces of a sheet (compiler model / reference), when both exist -/
+def bothTraces (rows : List CoreSheet.CRow) (n : Nat) : Option (List Obs × List Obs) :=
+  match Compile.compile [] [] (rows.map CoreSheet.toEvent), RefFlow.refFlow (rows.map CoreSheet.toRRow) with
+  | .ok out, .ok r => some (trace ⟨false, true⟩ (Compile.renderOut out) (fun _ => 0) n,
+                           trace ⟨false, true⟩ r (fun _ => 0) n)
+  | _, _ => none
+
+/-- the clause "the action the compiler attaches is the one the documentation describes" is needed
+(it is the part of C02 that is about action content, a parameter of both models) -/
+theorem fragment_needs_same_action :
+    bothTraces [arow "a" ["start"] "A" "" (some "B")] 1 = some ([.act "A".toList], [.act "B".toList]) := by
+  decide +kernel
+
+/-- the clause "no node identifier is given" is needed: a given `_nodeId` that collides with an
+identifier the compiler invents later (`~4` becomes the identifier of the second row's node)
+makes the first node lead to itself — the compiled flow repeats A, the rows say A then B -/
+theorem fragment_needs_no_given_id :
+    bothTraces [arow "a" ["start"] "A" "~4", arow "b" ["a"] "B"] 3 =
+      some ([.act "A".toList, .act "A".toList, .act "A".toList], [.act "A".toList, .act "B".toList]) := by
+  decide +kernel
 
 /-- T1: the tests without argument of the reference interpretation are the source's
 `RouterCase.NO_ARGS_TESTS` (re-extracted on every run). -/
